@@ -174,7 +174,7 @@ func lemmaCompressRoundTrip(rec *Record) (res bool, err error) {
 //@   ints bv
 //@   requires rec != nil && rec.Payload != nil && Conf != nil && len(rec.Key) <= 255 && len(rec.Payload.Body) < 1<<31-400
 //@   requires rec.Payload.Flag&FLAG_COMPRESS == 0
-//@   modifies rec.Payload.ValueHash, rec.Payload.Flag, rec.Payload.Body, rec.Payload.Addr, rec.Payload.Cap, cmem.AllocRL.Size, cmem.AllocRL.MaxSize, cmem.AllocRL.Count, cmem.AllocRL.MaxCount, ghostFail()
+//@   modifies elems(ghostDecompressDone), rec.Payload.ValueHash, rec.Payload.Flag, rec.Payload.Body, rec.Payload.Addr, rec.Payload.Cap, cmem.AllocRL.Size, cmem.AllocRL.MaxSize, cmem.AllocRL.Count, cmem.AllocRL.MaxCount, ghostFail()
 //@   ensures res
 
 // the same round trip, byte level (the FNV fold is kept opaque here: it only slows the solvers down)
@@ -189,7 +189,7 @@ func lemmaCompressRoundTripBytes(rec *Record) (err error) {
 //@   opaque SpecFnv1a
 //@   requires rec != nil && rec.Payload != nil && Conf != nil && len(rec.Key) <= 255 && len(rec.Payload.Body) < 1<<31-400
 //@   requires rec.Payload.Flag&FLAG_COMPRESS == 0
-//@   modifies rec.Payload.Flag, rec.Payload.Body, rec.Payload.Addr, rec.Payload.Cap, cmem.AllocRL.Size, cmem.AllocRL.MaxSize, cmem.AllocRL.Count, cmem.AllocRL.MaxCount, ghostFail()
+//@   modifies elems(ghostDecompressDone), rec.Payload.Flag, rec.Payload.Body, rec.Payload.Addr, rec.Payload.Cap, cmem.AllocRL.Size, cmem.AllocRL.MaxSize, cmem.AllocRL.Count, cmem.AllocRL.MaxCount, ghostFail()
 //@   ensures err == nil ==> rec.Payload.Flag == old(rec.Payload.Flag) && len(rec.Payload.Body) == old(len(rec.Payload.Body))
 //@   ensures err == nil ==> forall(0, old(len(rec.Payload.Body)), func(i int) bool { return rec.Payload.Body[i] == old(rec.Payload.Body[i]) })
 
